@@ -24,7 +24,7 @@ def demo():
     demos = [f for f in glob.glob(os.path.join(d, "*")) if f.endswith(".go")]
     for f in demos:
         shutil.copy(f, os.path.join(wt, pkg, os.path.basename(f) if f.endswith("_test.go") else os.path.basename(f).replace(".go", "_test.go")))
-    p = subprocess.run(["go", "test", "-mod=mod", "-vet=off", "-count=1", "-run", pat, "./" + pkg + "/"], cwd=wt, env=env, capture_output=True, text=True)
+    p = subprocess.run(["go", "test", "-mod=mod", "-vet=off", "-count=1", "-run", pat, "./" + pkg + "/"], cwd=wt, env=env, capture_output=True, text=True, errors="replace")
     for f in demos:
         os.remove(os.path.join(wt, pkg, os.path.basename(f) if f.endswith("_test.go") else os.path.basename(f).replace(".go", "_test.go")))
     return p.returncode, (p.stdout + p.stderr)[-600:]
